@@ -600,13 +600,21 @@ Proof.
   - exact (Forall2_nth R _ _ _ _ _ F2 Hx Hw).
 Qed.
 
+Lemma recv_text_ok mx vocab size cps :
+  text_body_too_long mx vocab size = false -> text_encodable cps = true -> recv_text mx [WStr vocab size cps] = RDeliver (OText cps).
+Proof. intros A B. cbn [recv_text]. rewrite A, B. rewrite andb_false_r. reflexivity. Qed.
+
 Lemma ser_free : forall o w, owf o = true -> ser voc o w -> recvw None w = RDeliver o.
 Proof.
   induction o using obj_ind'; intros w W S; try discriminate W.
   - atomw S; rewrite slice_int. reflexivity.
   - atomw S. reflexivity.
   - atomw S. cbn [slice]. unfold str_token. destruct (vocab_index voc bs); reflexivity.
-  - atomw S. cbn [slice]. unfold str_token. destruct (vocab_index voc cps); reflexivity.
+  - cbn [owf] in W. atomw S. cbn [slice]. unfold str_token.
+    destruct (vocab_index voc cps) as [i|];
+      [change (recvw None (WOpen OtUnicode [WStr true i cps])) with (recv_text None [WStr true i cps])
+      |change (recvw None (WOpen OtUnicode [WStr false (utf8size cps) cps])) with (recv_text None [WStr false (utf8size cps) cps])];
+      (apply recv_text_ok; [unfold text_body_too_long; apply andb_false_r|exact W]).
   - atomw S. destruct b; reflexivity.
   - atomw S. reflexivity.
   - cbn [owf] in W. destruct (ser_list_inv _ _ S) as [(ws & -> & F)| ->]; [|reflexivity].
@@ -738,13 +746,11 @@ Proof.
     destruct o; try discriminate. atomw S.
     cbn [checkObject] in CO. apply (len_ok_spec mx mn) in CO as [H1 H2].
     cbn [slice recvw]. change (slot_open (Some (CText mx mn))) with TOk. change (slot_opentype (Some (CText mx mn)) OtUnicode) with true.
-    cbn [negb child_of]. unfold str_token. destruct (vocab_index voc cps) as [i|]; cbn [recv_text].
+    cbn [negb child_of]. cbn [owf] in OW. unfold str_token. destruct (vocab_index voc cps) as [i|]; apply recv_text_ok; try exact OW.
     + unfold text_body_too_long. cbn [negb]. rewrite andb_false_r. reflexivity.
-    + assert (E : text_body_too_long mx false (utf8size cps) = false).
-      { unfold text_body_too_long. destruct mx as [m|]; [|apply andb_false_r]. cbn in H1.
-        change unicode_size_cmp with SGt. change unicode_size_factor with 6. cbn [scmp_eval].
-        pose proof (utf8size_bound cps). destruct (Z.gtb_spec (utf8size cps) (6 * m)); [lia|apply andb_false_r]. }
-      rewrite E. reflexivity.
+    + unfold text_body_too_long. destruct mx as [m|]; [|apply andb_false_r]. cbn in H1.
+      change unicode_size_cmp with SGt. change unicode_size_factor with 6. cbn [scmp_eval].
+      pose proof (utf8size_bound cps). destruct (Z.gtb_spec (utf8size cps) (6 * m)); [lia|apply andb_false_r].
   - (* Bool *)
     destruct o; try discriminate. atomw S. cbn [checkObject] in CO. cbn [slice recvw].
     change (slot_open (Some (CBool v))) with TOk. change (slot_opentype (Some (CBool v)) OtBool) with true.
@@ -931,7 +937,8 @@ Theorem c12_call : forall ms a kw, ms_wf ms -> args_guarded ms a kw ->
   forall p k, send_call voc ms a kw = Some (p, k) -> recv_call ms p k = CInvoke a kw.
 Proof.
   intros ms a kw [ND W] [G1 G2] p k S. unfold send_call in S.
-  destruct (checkAllArgs ms a kw) as [[]|t] eqn:E; [|discriminate]. inversion S; subst p k. clear S.
+  destruct (checkAllArgs ms a kw) as [[]|t] eqn:E; [|discriminate].
+  destruct (forallb sendable a && forallb (fun nv => sendable (snd nv)) kw); [|discriminate]. inversion S; subst p k. clear S.
   pose proof E as E0. apply checkAllArgs_spec in E as (A1 & A2 & A3 & A4).
   assert (LE : (List.length a <= List.length (ms_args ms))%nat) by (unfold zlen in A1; lia).
   unfold recv_call. rewrite (recv_pos_honest ms W a 0%nat).
@@ -970,7 +977,8 @@ Theorem c12_result : forall ms c o w,
   ms_resp ms = Some c -> wf c = true -> owf o = true -> c12_guard c o = true ->
   send_answer voc ms o = Some w -> recv_answer (Some c) w = Callback o.
 Proof.
-  intros ms c o w R W OW G S. unfold send_answer in S. rewrite R in S. change callFinished_checks_results with true in S.
+  intros ms c o w R W OW G S. unfold send_answer in S. destruct (negb (sendable o)); [discriminate|].
+  rewrite R in S. change callFinished_checks_results with true in S.
   cbn [andb] in S. destruct (checkObject c o) eqn:CO; [|discriminate]. cbn [negb] in S. inversion S; subst w.
   unfold recv_answer. rewrite (c12_main c o W OW G CO). rewrite CO. destruct answer_checks_object; reflexivity.
 Qed.
@@ -1951,4 +1959,216 @@ Example hostile_calls :
   recv_call_stream envX [rq; CTok (WInt 131 5 (-5)); nm_; CArgs [WInt 129 1 1; i5]] = QInvoke (-5) None msL [OInt 5] [] /\  (* bound method: name ignored *)
   recv_call_stream envX [rq; CTok (WInt 131 6 (-6)); nm_; args] = QViol /\                    (* requireSchema, bound method without schema *)
   recv_call_stream envX [rq; ob; CTok (WStr false 1 [110]); CArgs [WInt 129 1 1; WOpen OtList []]] = QViol.   (* the OTHER method's schema *)
+Proof. vm_compute. repeat split; reflexivity. Qed.
+
+(* ------------------------------------------------------------------ C12: text without a UTF-8 form *)
+Lemma utf8_encode_cp_len cp : zlen (utf8_encode_cp cp) = utf8len cp.
+Proof.
+  unfold utf8_encode_cp, utf8len. destruct (cp <? 128), (cp <? 2048), (cp <? 65536); reflexivity.
+Qed.
+
+Lemma utf8_encode_size cps : zlen (utf8_encode cps) = utf8size cps.
+Proof.
+  induction cps as [|cp cps IH]; [reflexivity|].
+  unfold utf8_encode. cbn [flat_map]. fold (utf8_encode cps). unfold zlen. rewrite app_length, Nat2Z.inj_add.
+  fold (zlen (utf8_encode_cp cp)). fold (zlen (utf8_encode cps)). rewrite utf8_encode_cp_len, IH. reflexivity.
+Qed.
+
+Lemma in_range a b x : a <= x <= b -> (a <=? x) && (x <=? b) = true.
+Proof. intros. apply andb_true_iff. split; apply Z.leb_le; lia. Qed.
+Lemma below_range a b x : x < a -> (a <=? x) && (x <=? b) = false.
+Proof. intros. apply andb_false_iff. left. apply Z.leb_gt. lia. Qed.
+Lemma above_range a b x : b < x -> (a <=? x) && (x <=? b) = false.
+Proof. intros. apply andb_false_iff. right. apply Z.leb_gt. lia. Qed.
+Lemma not_ascii x : 128 <= x -> (0 <=? x) && (x <? 128) = false.
+Proof. intros. apply andb_false_iff. right. apply Z.ltb_ge. lia. Qed.
+
+Lemma utf8_valid1 b r : 0 <= b < 128 -> utf8_valid (b :: r) = utf8_valid r.
+Proof.
+  intros. cbn [utf8_valid]. replace ((0 <=? b) && (b <? 128)) with true; [reflexivity|].
+  symmetry. apply andb_true_iff. split; [apply Z.leb_le|apply Z.ltb_lt]; lia.
+Qed.
+
+Lemma utf8_valid2 b0 b1 r : 194 <= b0 <= 223 -> 128 <= b1 <= 191 -> utf8_valid (b0 :: b1 :: r) = utf8_valid r.
+Proof.
+  intros. cbn [utf8_valid]. unfold u8cont. rewrite (not_ascii b0) by lia. rewrite (in_range 194 223 b0) by lia.
+  rewrite (in_range 128 191 b1) by lia. reflexivity.
+Qed.
+
+Lemma utf8_valid3 b0 b1 b2 r : 224 <= b0 <= 239 -> 128 <= b1 <= 191 -> 128 <= b2 <= 191 ->
+  (b0 = 224 -> 160 <= b1) -> (b0 = 237 -> b1 <= 159) -> utf8_valid (b0 :: b1 :: b2 :: r) = utf8_valid r.
+Proof.
+  intros A B C D E. cbn [utf8_valid]. unfold u8cont. rewrite (not_ascii b0) by lia. rewrite (above_range 194 223 b0) by lia.
+  rewrite (in_range 224 239 b0) by lia. rewrite (in_range 128 191 b2) by lia.
+  destruct (Z.eqb_spec b0 224) as [X|X]; [rewrite (in_range 160 191 b1) by lia; reflexivity|].
+  destruct (Z.eqb_spec b0 237) as [Y|Y]; [rewrite (in_range 128 159 b1) by lia; reflexivity|].
+  rewrite (in_range 128 191 b1) by lia. reflexivity.
+Qed.
+
+Lemma utf8_valid4 b0 b1 b2 b3 r : 240 <= b0 <= 244 -> 128 <= b1 <= 191 -> 128 <= b2 <= 191 -> 128 <= b3 <= 191 ->
+  (b0 = 240 -> 144 <= b1) -> (b0 = 244 -> b1 <= 143) -> utf8_valid (b0 :: b1 :: b2 :: b3 :: r) = utf8_valid r.
+Proof.
+  intros A B C C' D E. cbn [utf8_valid]. unfold u8cont. rewrite (not_ascii b0) by lia. rewrite (above_range 194 223 b0) by lia.
+  rewrite (above_range 224 239 b0) by lia. rewrite (in_range 240 244 b0) by lia.
+  rewrite (in_range 128 191 b2) by lia. rewrite (in_range 128 191 b3) by lia.
+  destruct (Z.eqb_spec b0 240) as [X|X]; [rewrite (in_range 144 191 b1) by lia; reflexivity|].
+  destruct (Z.eqb_spec b0 244) as [Y|Y]; [rewrite (in_range 128 143 b1) by lia; reflexivity|].
+  rewrite (in_range 128 191 b1) by lia. reflexivity.
+Qed.
+
+Lemma utf8_encode_cp_valid cp r : cp_encodable cp = true -> utf8_valid (utf8_encode_cp cp ++ r) = utf8_valid r.
+Proof.
+  unfold cp_encodable. intros E.
+  apply andb_true_iff in E as [E E3]. apply andb_true_iff in E as [E1 E2].
+  apply Z.leb_le in E1, E2. apply negb_true_iff in E3.
+  assert (S : cp < 55296 \/ 57343 < cp).
+  { destruct (Z.leb_spec 55296 cp), (Z.leb_spec cp 57343); cbn in E3; try discriminate; lia. }
+  clear E3. unfold utf8_encode_cp.
+  destruct (Z.ltb_spec cp 128); [apply utf8_valid1; lia|].
+  destruct (Z.ltb_spec cp 2048).
+  { cbn [app]. apply utf8_valid2.
+    - pose proof (Z.div_le_mono 128 cp 64 ltac:(lia) ltac:(lia)). pose proof (Z.div_lt_upper_bound cp 64 32 ltac:(lia) ltac:(lia)).
+      change (128 / 64) with 2 in *. lia.
+    - pose proof (Z.mod_pos_bound cp 64 ltac:(lia)). lia. }
+  destruct (Z.ltb_spec cp 65536).
+  { cbn [app]. 
+    pose proof (Z.mod_pos_bound cp 64 ltac:(lia)). pose proof (Z.mod_pos_bound (cp / 64) 64 ltac:(lia)).
+    assert (Q1 : cp / 4096 = (cp / 64) / 64) by (rewrite Z.div_div by lia; reflexivity).
+    pose proof (Z.div_mod cp 64 ltac:(lia)) as M1. pose proof (Z.div_mod (cp / 64) 64 ltac:(lia)) as M2.
+    set (q := cp / 64) in *. set (h := q / 64) in *. set (m1 := cp mod 64) in *. set (m2 := q mod 64) in *. rewrite Q1.
+    apply utf8_valid3; lia. }
+  cbn [app].
+  pose proof (Z.mod_pos_bound cp 64 ltac:(lia)). pose proof (Z.mod_pos_bound (cp / 64) 64 ltac:(lia)).
+  pose proof (Z.mod_pos_bound (cp / 4096) 64 ltac:(lia)).
+  assert (Q1 : cp / 4096 = (cp / 64) / 64) by (rewrite Z.div_div by lia; reflexivity).
+  assert (Q2 : cp / 262144 = ((cp / 64) / 64) / 64) by (rewrite !Z.div_div by lia; reflexivity).
+  rewrite Q2. rewrite Q1 in *.
+  pose proof (Z.div_mod cp 64 ltac:(lia)) as M1. pose proof (Z.div_mod (cp / 64) 64 ltac:(lia)) as M2.
+  pose proof (Z.div_mod (cp / 64 / 64) 64 ltac:(lia)) as M3.
+  set (q := cp / 64) in *. set (h := q / 64) in *. set (g := h / 64) in *.
+  set (m1 := cp mod 64) in *. set (m2 := q mod 64) in *. set (m3 := h mod 64) in *.
+  apply utf8_valid4; lia.
+Qed.
+
+Theorem utf8_encode_valid cps : text_encodable cps = true -> utf8_valid (utf8_encode cps) = true /\ zlen (utf8_encode cps) = utf8size cps.
+Proof.
+  intros E. split; [|apply utf8_encode_size].
+  induction cps as [|cp cps IH]; [reflexivity|]. unfold text_encodable in E. cbn [forallb] in E. apply andb_true_iff in E as [E1 E2].
+  unfold utf8_encode. cbn [flat_map]. fold (utf8_encode cps). rewrite utf8_encode_cp_valid by exact E1. apply IH. exact E2.
+Qed.
+
+(* a lone surrogate in its generic three-byte form (what errors="surrogatepass" emits) is refused by the strict decoder *)
+Lemma utf8_surrogate_invalid cp r : 55296 <= cp <= 57343 -> utf8_valid (utf8_encode_cp cp ++ r) = false.
+Proof.
+  intros R. unfold utf8_encode_cp. destruct (Z.ltb_spec cp 128); [lia|]. destruct (Z.ltb_spec cp 2048); [lia|].
+  destruct (Z.ltb_spec cp 65536); [|lia]. cbn [app].
+  pose proof (Z.mod_pos_bound cp 64 ltac:(lia)). pose proof (Z.mod_pos_bound (cp / 64) 64 ltac:(lia)).
+  assert (Q1 : cp / 4096 = (cp / 64) / 64) by (rewrite Z.div_div by lia; reflexivity).
+  pose proof (Z.div_mod cp 64 ltac:(lia)) as M1. pose proof (Z.div_mod (cp / 64) 64 ltac:(lia)) as M2.
+  set (q := cp / 64) in *. set (h := q / 64) in *. set (m1 := cp mod 64) in *. set (m2 := q mod 64) in *. rewrite Q1.
+  assert (Hh : h = 13) by lia. rewrite Hh. change (224 + 13) with 237.
+  cbn [utf8_valid]. change ((0 <=? 237) && (237 <? 128)) with false. change ((194 <=? 237) && (237 <=? 223)) with false.
+  change ((224 <=? 237) && (237 <=? 239)) with true. change (237 =? 224) with false. change (237 =? 237) with true. cbv iota.
+  rewrite (above_range 128 159 (128 + m2)) by lia. reflexivity.
+Qed.
+
+Definition cp_in_range (cp : Z) : bool := (0 <=? cp) && (cp <=? 1114111).
+
+(* the receiver's strict decoder accepts the generic UTF-8 form of a text exactly when the text is encodable: what the
+   strict encoder refuses is what the receiver would refuse *)
+Theorem utf8_encode_valid_iff cps : forallb cp_in_range cps = true -> utf8_valid (utf8_encode cps) = text_encodable cps.
+Proof.
+  induction cps as [|cp cps IH]; [reflexivity|]. cbn [forallb]. intros E. apply andb_true_iff in E as [E1 E2].
+  unfold utf8_encode, text_encodable. cbn [flat_map forallb]. fold (utf8_encode cps). fold (text_encodable cps).
+  destruct (cp_encodable cp) eqn:C.
+  - rewrite utf8_encode_cp_valid by exact C. cbn [andb]. apply IH. exact E2.
+  - cbn [andb]. apply utf8_surrogate_invalid. unfold cp_in_range in E1. unfold cp_encodable in C.
+    rewrite E1 in C. cbn [andb] in C. apply negb_false_iff in C. apply andb_true_iff in C as [C1 C2].
+    apply Z.leb_le in C1, C2. lia.
+Qed.
+
+(* ---- the sender refuses text without a UTF-8 form locally *)
+Lemma forallb_eq {A} (f g : A -> bool) l : (forall x, f x = g x) -> forallb f l = forallb g l.
+Proof. intros H. induction l as [|x l IH]; [reflexivity|]. cbn [forallb]. rewrite H, IH. reflexivity. Qed.
+
+Lemma sendable_encodable o : sendable o = encodable o.
+Proof. reflexivity. Qed.
+
+Theorem unencodable_call_refused voc ms a kw :
+  forallb encodable a && forallb (fun nv => encodable (snd nv)) kw = false -> send_call voc ms a kw = None.
+Proof.
+  intros E. unfold send_call. destruct (checkAllArgs ms a kw); [|reflexivity].
+  rewrite (forallb_eq sendable encodable a sendable_encodable).
+  rewrite (forallb_eq (fun nv : Z * obj => sendable (snd nv)) (fun nv => encodable (snd nv)) kw (fun nv => sendable_encodable (snd nv))).
+  rewrite E. reflexivity.
+Qed.
+
+Theorem unencodable_result_refused voc ms o : encodable o = false -> send_answer voc ms o = None.
+Proof.
+  intros E. unfold send_answer, sendable. change unicode_slicer_refuses_unencodable with true. cbn [negb orb]. rewrite E. reflexivity.
+Qed.
+
+(* necessity (and non-vacuity): the sender's schema check accepts such text, and if the slicer let it out (the generic
+   three-byte form) the receiver's strict decoder would raise UnicodeDecodeError: connection lost *)
+Example unencodable_witness :
+  let o := OList [OText [99; 97; 102; 56553]; OText [97]] in let c := CList (CText (Some 4) 0) None 0 in
+  checkObject c o = true /\ encodable o = false /\ utf8_valid (utf8_encode [99; 97; 102; 56553]) = false /\
+  recvw (Some c) (slice [] o) = (if unicode_unslicer_undecodable_violation then RViol else RAbort) /\
+  send_call [] (ms1 c) [o] [] = None /\
+  encodable (OText [55295; 57344; 1114111]) = true /\ utf8_valid (utf8_encode [55295; 57344; 1114111]) = true /\
+  recvw (Some (CText (Some 3) 0)) (slice [] (OText [55295; 57344; 1114111])) = RDeliver (OText [55295; 57344; 1114111]).
+Proof. vm_compute. repeat split; reflexivity. Qed.
+
+(* ------------------------------------------------------------------ C02: RemoteInterfaces that derive from RemoteInterfaces *)
+Lemma assocZ_app {V} n (l1 l2 : list (Z * V)) :
+  assocZ n (l1 ++ l2) = match assocZ n l1 with Some v => Some v | None => assocZ n l2 end.
+Proof.
+  induction l1 as [|[k v] l1 IH]; [reflexivity|]. cbn [app assocZ]. destruct (n =? k); [reflexivity|exact IH].
+Qed.
+
+Theorem iface_table_most_derived layers n : assocZ n (iface_table layers) = most_derived layers n.
+Proof.
+  unfold iface_table. induction layers as [|l layers IH]; [reflexivity|].
+  cbn [List.concat most_derived]. rewrite assocZ_app. destruct (assocZ n l); [reflexivity|exact IH].
+Qed.
+
+(* the declaration of the most derived interface that declares the name wins, whatever its bases declare *)
+Corollary most_derived_override pre l post n ms :
+  (forall l', In l' pre -> assocZ n l' = None) -> assocZ n l = Some ms -> most_derived (pre ++ l :: post) n = Some ms.
+Proof.
+  intros H E. induction pre as [|p pre IH]; cbn [app most_derived]; [rewrite E; reflexivity|].
+  rewrite (H p (or_introl eq_refl)). apply IH. intros l' Hin. apply H. right. exact Hin.
+Qed.
+
+Theorem call_stream_checked_inherited env kids clid n ms a kw t layers :
+  0 <= clid -> assocZ clid (be_objs env) = Some t -> t_iface t = Some (iface_table layers) ->
+  recv_call_stream env kids = QInvoke clid (Some n) ms a kw ->
+  most_derived layers n = Some ms /\ checkAllArgs ms a kw = Ok tt.
+Proof.
+  intros C T I E. apply call_stream_checked in E as [(t' & T' & D) K]. split; [|exact K].
+  rewrite T in T'. inversion T'; subst t'. destruct (Z.ltb_spec clid 0); [lia|].
+  destruct D as (tbl & n' & I' & M & A). rewrite I in I'. inversion I'; subst tbl. inversion M; subst n'.
+  rewrite <- iface_table_most_derived. exact A.
+Qed.
+
+(* RIBase { m(a=Int(maxBytes=-1), b=Optional(Bytes(3,1))); n(..same..) } <- RIDerived { m(a=int, b=Optional(ListOf(bytes<=4, 2)), c=Optional(str)) };
+   object 3 implements RIDerived, object 4 RIBase *)
+Definition envI : benv :=
+  {| be_objs := [(3, {| t_iface := Some (iface_table [[(name_code [109], ms3 false false)]; [(name_code [109], msL); (name_code [110], msL)]]);
+                        t_methodSchema := None |});
+                 (4, {| t_iface := Some (iface_table [[(name_code [109], msL); (name_code [110], msL)]]); t_methodSchema := None |})];
+     be_require := false; be_active := [] |}.
+
+Example inherited_calls :
+  let rq := CTok (WInt 129 1 1) in let nm_ := CTok (WStr false 1 [109]) in let nn := CTok (WStr false 1 [110]) in
+  let big := CArgs [WInt 129 1 1; WInt 133 5 (2 ^ 39)] in        (* fits the override's int, not the base's 32 bits *)
+  let kwc := CArgs [WInt 129 1 1; i5; kname 99; slice [] (OText [120])] in   (* c= exists in the override only *)
+  most_derived [[(name_code [109], ms3 false false)]; [(name_code [109], msL); (name_code [110], msL)]] (name_code [109]) = Some (ms3 false false) /\
+  most_derived [[(name_code [109], ms3 false false)]; [(name_code [109], msL); (name_code [110], msL)]] (name_code [110]) = Some msL /\
+  recv_call_stream envI [rq; CTok (WInt 129 3 3); nm_; big] = QInvoke 3 (Some (name_code [109])) (ms3 false false) [OInt (2 ^ 39)] [] /\
+  recv_call_stream envI [rq; CTok (WInt 129 4 4); nm_; big] = QViol /\              (* the same call to the object that implements the base *)
+  recv_call_stream envI [rq; CTok (WInt 129 3 3); nn; big] = QViol /\               (* inherited, not overridden: the base's schema *)
+  recv_call_stream envI [rq; CTok (WInt 129 3 3); nm_; kwc] = QInvoke 3 (Some (name_code [109])) (ms3 false false) [OInt 5] [(nC, OText [120])] /\
+  recv_call_stream envI [rq; CTok (WInt 129 4 4); nm_; kwc] = QViol /\
+  recv_call_stream envI [rq; CTok (WInt 129 3 3); nn; CArgs [WInt 129 1 1; i5]] = QInvoke 3 (Some (name_code [110])) msL [OInt 5] [].
 Proof. vm_compute. repeat split; reflexivity. Qed.
